@@ -202,6 +202,15 @@ def main(tier: str) -> int:
     projects.append(("identical_imports", {"target.py": "from dup_one import f1\nfrom dup_two import f1 as f2\nfrom dup_three import f1 as f3\n\ndef use(a):\n    f1(a)\n    f2(a)\n    f3(a)\n",
                                           "dup_one.py": "def f1(p):\n    return p.same\n", "dup_two.py": "def f1(p):\n    return p.same\n",
                                           "dup_three.py": "def f1(p):\n    return p.same\n"}, "target.py"))
+    # an imported module that itself imports several local modules (by every import form) - and so do two of those:
+    # the order in which sibling imports are followed is the key order of import_irs in the IR document
+    leafs = {f"leaf_{c}.py": f"def lf_{c}(p):\n    return p.leaf_{c}\n" for c in "abcdefgh"}
+    projects.append(("hub_with_many_imports", {
+        "target.py": "from hub import route\nimport side_hub\n\ndef use(a):\n    side_hub.go(a)\n    return route(a)\n",
+        "hub.py": "import leaf_a\nfrom leaf_b import lf_b\nimport leaf_c as lc\nfrom leaf_d import lf_d as ld\nimport leaf_e\nfrom leaf_f import *\n\n"
+                  "def route(p):\n    leaf_a.lf_a(p)\n    lf_b(p)\n    lc.lf_c(p)\n    ld(p)\n    leaf_e.lf_e(p)\n    return lf_f(p)\n",
+        "side_hub.py": "from leaf_g import lf_g\nfrom leaf_h import lf_h\nfrom leaf_a import lf_a\n\ndef go(p):\n    lf_g(p)\n    lf_h(p)\n    return lf_a(p)\n",
+        **leafs}, "target.py"))
     for i in range(n_graphs):
         defs = R.gen_graph(rng, rng.randint(2, 5), 2) if i % 2 else R.gen_tree_graph(rng, rng.randint(2, 5))
         projects.append((f"graph{i}", {"target.py": R.module_source(defs)}, "target.py"))
@@ -296,7 +305,7 @@ def main(tier: str) -> int:
                         sorted_problems.append({"project": name, "problem": p, "files": v["files"]})
         if len(distinct) > 1:
             info = {"project": name, "output": out, "distinct_documents": len(distinct), "files": v["files"]}
-            if out == "ir" and (ties.get(name) or "import *" in "".join(v["files"].values())):
+            if out == "ir" and ties.get(name):
                 seed_known.append(info)
             else:
                 seed_new.append(info)
